@@ -2549,7 +2549,7 @@ class Interp:
         # what the closure's body does belongs to the function that wrote it (its templates, the calls it makes), not to the helper that applies it
         # (`stage_entries(module, stage, |entry_point| ..)`) - the compiler, too, attributes a closure to its creator
         saved_callee = fr['callee']
-        if creator is not None and creator in self.c.fns:
+        if creator is not None and creator in self.c.fns and fr.get('fn') != '$detached':
             fr['callee'] = creator
         # closures have their own `return`/`?` scope
         saved_for, fr['for_ids'] = fr.get('for_ids', []), []
@@ -2757,6 +2757,11 @@ class Interp:
             return ('unwrap', recv)
         if m == 'ok':
             return recv
+        if m == 'ok_or' and len(e['args']) == 1:
+            # `opt.ok_or(err)` is `match opt { Some(v) => Ok(v), None => Err(err) }`
+            oc, ov = self.as_opt(recv)
+            if oc is not None:
+                return ('alt', [(oc, ('ok', ov)), (TRUE, ('err', self.expr(e['args'][0], env)))])
         if m in ('is_some', 'is_none') and recv[0] == 'alt':
             oc, ov = self.as_opt(recv)
             if oc is not None:
